@@ -204,3 +204,14 @@ def bounded(params):
     return {"evaluations": evals, "distinct_nontrivial": nontriv, "failures": failures,
             "rule": "seeded 1-D label maps over {0,1,2,5,6,9} x 3 partitions into plain/merge/single-instance groups x 3 input types: grouped result vs ungrouped result on the restricted arrays; plus the undefined-label probe on both arrays",
             "bound": "length 10; quick 24 draws"}
+
+
+def ctor(params):
+    from panoptica.utils.label_group import LabelGroup, LabelMergeGroup
+    bad = []
+    for cls in (LabelGroup, LabelMergeGroup):
+        for labels, flag in (([7], False), ([7], True), ([1, 2], False)):
+            g = cls(list(labels), single_instance=flag)
+            if g.single_instance is not flag or sorted(g.value_labels) != sorted(labels):
+                bad.append(f"{cls.__name__}({labels}, single_instance={flag}) reports single_instance={g.single_instance}, value_labels={g.value_labels}")
+    return {"violated": bool(bad), "problems": bad}
